@@ -6,6 +6,7 @@ import (
 	"go/constant"
 	"go/token"
 	"go/types"
+	"strings"
 
 	"verifcheck/core"
 )
@@ -260,33 +261,46 @@ func runC01(c *core.Ctx) {
 		}
 
 		// WriteSnapshot: closed segments and cache snapshot captured in one critical section under Engine.mu.Lock
-		f = c.Fn(tsm1 + ".(*Engine).WriteSnapshot")
+		// every site that lists the closed WAL segments for removal must do so in the critical
+		// section that also takes the cache snapshot
 		var inner *core.FuncInfo
-		for _, l := range f.Lits {
-			if len(l.Graph().Find(evCall(fieldCallIn(l, "Engine.Cache", "Snapshot")))) > 0 {
-				inner = l
+		nList := 0
+		for _, g := range c.P.FuncsIn(tsm1) {
+			if g.Body == nil || g.Root().Name == tsm1+".(*WAL).ClosedSegments" {
+				continue
+			}
+			for _, e := range g.Graph().Find(evCall(fieldCallIn(g, "Engine.WAL", "ClosedSegments"))) {
+				nList++
+				hasSnap := len(g.Graph().Find(evCall(fieldCallIn(g, "Engine.Cache", "Snapshot")))) > 0
+				c.Check("snapshot-atomic", g.Root().Name+"/ClosedSegments-with-Cache.Snapshot", c.P.Pos(e.Pos()), hasSnap,
+					"the list of closed WAL segments (later removed by the snapshot commit) is taken outside the critical section that takes the cache snapshot: a segment closed in between holds writes that are only in the live cache, and its removal loses them at the next restart")
+				if hasSnap {
+					inner = g
+				}
 			}
 		}
-		c.Need(inner != nil, "closure of WriteSnapshot calling Cache.Snapshot")
+		c.Need(nList >= 1, "a site listing WAL.ClosedSegments in tsm1")
 		lock := func(e *core.Event) bool {
 			return e.Kind == core.EvCall && core.CalleeName(e) == "sync.(*RWMutex).Lock" && core.RecvFieldOf(e) == "Engine.mu"
 		}
-		orderRule(c, inner, "snapshot-atomic", "Engine.mu.Lock", "WAL.CloseSegment", lock, evCall(fieldCallIn(inner, "Engine.WAL", "CloseSegment")))
-		orderRule(c, inner, "snapshot-atomic", "Engine.mu.Lock", "WAL.ClosedSegments", lock, evCall(fieldCallIn(inner, "Engine.WAL", "ClosedSegments")))
-		orderRule(c, inner, "snapshot-atomic", "Engine.mu.Lock", "Cache.Snapshot", lock, evCall(fieldCallIn(inner, "Engine.Cache", "Snapshot")))
-		orderRule(c, inner, "snapshot-atomic", "WAL.CloseSegment", "WAL.ClosedSegments", evCall(fieldCallIn(inner, "Engine.WAL", "CloseSegment")), evCall(fieldCallIn(inner, "Engine.WAL", "ClosedSegments")))
-		// unlock must be deferred (held to the end of the section)
-		unlockDeferred := false
-		for _, d := range inner.Graph().Defers {
-			if core.CalleeName(d) == "sync.(*RWMutex).Unlock" && core.RecvFieldOf(d) == "Engine.mu" {
-				unlockDeferred = true
+		if inner != nil {
+			orderRule(c, inner, "snapshot-atomic", "Engine.mu.Lock", "WAL.CloseSegment", lock, evCall(fieldCallIn(inner, "Engine.WAL", "CloseSegment")))
+			orderRule(c, inner, "snapshot-atomic", "Engine.mu.Lock", "WAL.ClosedSegments", lock, evCall(fieldCallIn(inner, "Engine.WAL", "ClosedSegments")))
+			orderRule(c, inner, "snapshot-atomic", "Engine.mu.Lock", "Cache.Snapshot", lock, evCall(fieldCallIn(inner, "Engine.Cache", "Snapshot")))
+			orderRule(c, inner, "snapshot-atomic", "WAL.CloseSegment", "WAL.ClosedSegments", evCall(fieldCallIn(inner, "Engine.WAL", "CloseSegment")), evCall(fieldCallIn(inner, "Engine.WAL", "ClosedSegments")))
+			// unlock must be deferred (held to the end of the section)
+			unlockDeferred := false
+			for _, d := range inner.Graph().Defers {
+				if core.CalleeName(d) == "sync.(*RWMutex).Unlock" && core.RecvFieldOf(d) == "Engine.mu" {
+					unlockDeferred = true
+				}
 			}
+			explicitUnlock := len(inner.Graph().Find(func(e *core.Event) bool {
+				return e.Kind == core.EvCall && core.CalleeName(e) == "sync.(*RWMutex).Unlock" && core.RecvFieldOf(e) == "Engine.mu"
+			}))
+			c.Check("snapshot-atomic", inner.Name+"/unlock-deferred", inner.PosStr(), unlockDeferred && explicitUnlock == 0,
+				"Engine.mu must stay locked from WAL.CloseSegment to Cache.Snapshot (deferred unlock, no early unlock)")
 		}
-		explicitUnlock := len(inner.Graph().Find(func(e *core.Event) bool {
-			return e.Kind == core.EvCall && core.CalleeName(e) == "sync.(*RWMutex).Unlock" && core.RecvFieldOf(e) == "Engine.mu"
-		}))
-		c.Check("snapshot-atomic", inner.Name+"/unlock-deferred", inner.PosStr(), unlockDeferred && explicitUnlock == 0,
-			"Engine.mu must stay locked from WAL.CloseSegment to Cache.Snapshot (deferred unlock, no early unlock)")
 		n += 5
 		// the write path holds Engine.mu.RLock across cache and WAL write
 		wp := c.Fn(tsm1 + ".(*Engine).WritePointsWithContext")
@@ -376,8 +390,12 @@ func runC01(c *core.Ctx) {
 				"the error of TSMWriter.Close (which carries the fsync result) must be assigned to the named result of Compactor.write when no earlier error exists")
 			n++
 			// the defer must be registered before the first block is written
-			wb := func(e *core.Event) bool { return e.Kind == core.EvCall && core.CalleeName(e) == tsm1+".TSMWriter.WriteBlock" }
-			isDefer := func(e *core.Event) bool { return e.Kind == core.EvDefer && e.Call != nil && e.Call.Fun == ast.Expr(dl.Lit) }
+			wb := func(e *core.Event) bool {
+				return e.Kind == core.EvCall && core.CalleeName(e) == tsm1+".TSMWriter.WriteBlock"
+			}
+			isDefer := func(e *core.Event) bool {
+				return e.Kind == core.EvDefer && e.Call != nil && e.Call.Fun == ast.Expr(dl.Lit)
+			}
 			orderRule(c, f, "close-on-every-exit", "defer-close", "WriteBlock", isDefer, wb)
 			n++
 		}
@@ -570,6 +588,61 @@ func runC01(c *core.Ctx) {
 		}
 		c.Check("wal-tail-typestate", tsm1+".(*WAL).Open+(*Engine).Open+(*CacheLoader).Load", wo.PosStr(), a || b || cOK, detail)
 		c.Note("D4 shapes: append-mode reopen=%v, reload-before-open=%v, loader-never-truncates=%v", a, b, cOK)
+		// segment ids never collide with an existing file: either new segments are created with O_EXCL,
+		// or WAL.Open takes currentSegmentID from the newest segment on every successful path where segments exist
+		nsf := c.Fn(tsm1 + ".(*WAL).newSegmentFile")
+		excl := false
+		for _, e := range nsf.Graph().Find(evCall(calleeIn(nsf, "os.OpenFile"))) {
+			if tv := nsf.Info().Types[e.Call.Args[1]]; tv.Value != nil {
+				if v, ok := constInt(tv.Value); ok && v&osConst(c, "O_EXCL") != 0 {
+					excl = true
+				}
+			}
+		}
+		idf := calleeIn(wo, tsm1+".idFromFileName")
+		hasSegs := func(x ast.Expr) bool {
+			be, ok := ast.Unparen(x).(*ast.BinaryExpr)
+			if !ok || be.Op != token.GTR {
+				return false
+			}
+			ce, ok := be.X.(*ast.CallExpr)
+			if !ok || len(ce.Args) != 1 {
+				return false
+			}
+			id, ok := ce.Args[0].(*ast.Ident)
+			if !ok {
+				return false
+			}
+			fact := wo.Flow().FactOfExpr(wo.Graph().Exit, id)
+			_ = fact
+			return isLenCall(wo.Info(), ce) && allDefsContain(wo, wo.Info().ObjectOf(id), calleeIn(wo, tsm1+".segmentFileNames"))
+		}
+		badID := ""
+		complete := wo.Flow().ExplorePaths(func(k core.VarKey, fct core.Fact) bool {
+			if ce, ok := fct.Def.(*ast.CallExpr); ok && idf(ce) {
+				return true
+			}
+			return k.Root == nil && strings.HasPrefix(k.Path, "cond:") && fct.Def != nil && hasSegs(fct.Def)
+		}, func(e *core.Event, st core.State) {
+			if e.Kind != core.EvReturn {
+				return
+			}
+			rf, _ := wo.ReturnErrFact(e)
+			if rf.Nil == core.NonNil || core.CondOutcome(st, hasSegs) != 1 {
+				return
+			}
+			for k, fct := range st {
+				if k.Path == ".currentSegmentID" {
+					if ce, ok := fct.Def.(*ast.CallExpr); ok && idf(ce) {
+						return
+					}
+				}
+			}
+			badID = "WAL.Open can succeed with existing segments without setting currentSegmentID from the newest segment's file name @" + c.P.Pos(e.Pos())
+		})
+		c.Need(complete, "exploration bound WAL.Open")
+		c.Check("segment-id-never-reused", tsm1+".(*WAL).Open/currentSegmentID", wo.PosStr(), excl || badID == "",
+			badID+": the next newSegmentFile (opened without O_EXCL/O_TRUNC) re-creates an existing segment name and overwrites acknowledged entries from offset 0")
 		// newSegmentFile: the old segment is synced (waiters notified) before it is closed
 		ns := c.Fn(tsm1 + ".(*WAL).newSegmentFile")
 		orderRule(c, ns, "sync-before-roll", "WAL.sync", "segment.close", evCall(calleeIn(ns, tsm1+".(*WAL).sync")),
@@ -650,4 +723,45 @@ func osOAppend(c *core.Ctx) int64 {
 		}
 	}
 	panic("os.O_APPEND not found")
+}
+
+func osConst(c *core.Ctx, name string) int64 {
+	for _, p := range c.P.Pkgs {
+		for path, imp := range p.Imports {
+			if path == "os" && imp.Types != nil {
+				if o, ok := imp.Types.Scope().Lookup(name).(*types.Const); ok {
+					if v, ok := constant.Int64Val(o.Val()); ok {
+						return v
+					}
+				}
+			}
+		}
+	}
+	panic("os." + name + " not found")
+}
+
+func isLenCall(info *types.Info, ce *ast.CallExpr) bool {
+	b, ok := core.Callee(info, ce).(*types.Builtin)
+	return ok && b.Name() == "len"
+}
+
+// allDefsContain: some assignment to obj has an RHS call accepted by pred (the variable derives from that call).
+func allDefsContain(f *core.FuncInfo, obj types.Object, pred func(*ast.CallExpr) bool) bool {
+	found := false
+	info := f.Info()
+	ast.Inspect(f.Body, func(nd ast.Node) bool {
+		if as, ok := nd.(*ast.AssignStmt); ok {
+			for _, l := range as.Lhs {
+				if id, isId := l.(*ast.Ident); isId && info.ObjectOf(id) == obj {
+					for _, r := range as.Rhs {
+						if ce, ok := ast.Unparen(r).(*ast.CallExpr); ok && pred(ce) {
+							found = true
+						}
+					}
+				}
+			}
+		}
+		return true
+	})
+	return found
 }
